@@ -55,6 +55,11 @@ def scenario(exe, base, name, steps, valgrind):
     os.makedirs(d)
     for f in os.listdir(CONFIGS):
         shutil.copy(os.path.join(CONFIGS, f), d)
+    # variants of ion.param with an optional component that switches itself off: a star without ionizing luminosity next to an
+    # external field, and an external field without flux next to a star ("No ... luminosity! Disabling ...")
+    ion = open(os.path.join(CONFIGS, "ion.param")).read()
+    open(os.path.join(d, "ion_dark_star.param"), "w").write(ion.replace("luminosity: 1.e+47 Hz", "luminosity: 0. Hz"))
+    open(os.path.join(d, "ion_dark_field.param"), "w").write(ion.replace("total flux: 1.e8 m^-2 s^-1", "total flux: 0. m^-2 s^-1"))
     res = []
     for a in steps:
         rc, out = run_binary(exe, d, a, valgrind)
@@ -73,6 +78,8 @@ def scenarios(thorough):
                           ["--task-based-rhd", "--params", "hydro.param", "--threads", "1", "--dirty", "--restart", ".", "--number-of-steps", "1"]],
         "rhd_radiation_liveoutput_2threads": [["--task-based-rhd", "--params", "rhd.param", "--threads", "2", "--dirty", "--number-of-steps", "2"]],
         "ionization_diffuse_continuous_2threads": [["--task-based", "--params", "ion.param", "--threads", "2", "--dirty"]],
+        "ionization_dark_star_2threads": [["--task-based", "--params", "ion_dark_star.param", "--threads", "2", "--dirty"]],
+        "ionization_dark_field_2threads": [["--task-based", "--params", "ion_dark_field.param", "--threads", "2", "--dirty"]],
     }
     if thorough:
         S.update({
@@ -126,6 +133,16 @@ def run(ck):
                 ck.violation("C12: %s leaves an owning pointer uninitialised that its destructor tests (life-cycle theorem fails; valgrind confirms on a complete hydro run)" % name,
                              dict(info, replay_cmd="CMacIonize --task-based-rhd --params hydro.param under valgrind"), key={"kind": "lifecycle", "class": cls})
                 shown = True
+        elif cls == "TaskBasedIonizationSimulation" and ok_b:
+            for sc in ("ionization_dark_star_2threads", "ionization_dark_field_2threads", "ionization_diffuse_continuous_2threads"):
+                nm, res = scenario(exe, d, "replay_tbis", scenarios(False)[sc], True)
+                if any(r[1] != 0 for r in res):
+                    info["valgrind"] = res[-1][2]
+                    ck.violation("C12: %s: an owning pointer member is deleted and used afterwards (life-cycle theorem fails; the complete run '%s' exits with status %d under valgrind: %s)"
+                                 % (name, sc, res[-1][1], " | ".join(res[-1][2][:3])),
+                                 dict(info, scenario=sc, replay_cmd="CMacIonize %s under valgrind" % " ".join(res[-1][0])), key={"kind": "lifecycle", "class": cls})
+                    shown = True
+                    break
         if not shown:
             ck.breaks.append("life-cycle checker rejects %s (pointers %s) and no replay on the real code is available" % (name, info["pointers"]))
     # --- observed part: complete runs under valgrind (quick) / ASan+UBSan as well (thorough)
@@ -173,7 +190,7 @@ def run(ck):
     cov["rejected_programs"] = rej
     cov["runs"] = [{"tool": t, "scenario": n, "steps": [{"args": " ".join(a), "exit": rc, "report": rep[:3]} for a, rc, rep in res]} for t, n, res in runs]
     cov["samples"] = [{"program": p["name"], "pointers": p["ptrs"], "abstract": LX.to_coq(p["ops"])[:300]} for p in progs[:3]]
-    ck.assumptions += ["clang AST of the sources as compiled with -DCMI_VERIF", "intraprocedural: pointers handed to other functions are assumed not to be deleted there",
+    ck.assumptions += ["clang AST of the sources as compiled with -DCMI_VERIF", "pointers handed directly to a plain function are followed into that function (does it delete its parameter? by value or by reference, reset or not); pointers handed to methods/constructors are assumed not to be deleted there",
                        "valgrind/sanitizer runs sample configurations; they are observations, not proof"]
     ck.resolve_breaks_without_input()
 
